@@ -113,7 +113,7 @@ func (cx *Ctx) usableLemmas(syms map[string]bool) ([]*Term, []string, error) {
 			if rerr != nil {
 				return nil, nil, rerr
 			}
-			env := &Env{cx: cx, st: st, old: st, vars: vars, epochSt: st}
+			env := &Env{cx: cx, st: st, old: st, vars: vars, epochSt: st, forceEpoch: ep != ""}
 			trig, err := env.Eval(l.Trigger)
 			if err != nil {
 				return nil, nil, fmt.Errorf("lemma %s trigger: %v", l.Name, err)
